@@ -254,8 +254,9 @@ PROPS = {
         "claimed": True,
         "technique": "TLA+ enumeration of the value spaces and keyword tables of the typed field values (no state machine: pure encode/decode); every value and rejection probe replayed on the real FromStr/Display",
         "level_text": "spec/MCCodecs.tla holds the documented keyword tables of the seven enumerations and the value spaces of the record and prefixed types; TLC enumerates every keyword, every rejection probe (each keyword of every other table plus mangled forms) and every record value within scope; the harness checks from_str(to_string(v)) == v, that printing the parsed value gives the same text again, and that foreign keywords are rejected. This property is the thinnest fit for a TLA+ specification (DESIGN.md section 4): the spec contributes the tables and the exhaustive case list, nothing stateful is claimed.",
-        "level_note": "bounded scopes: 4 tokens (ASCII, hex, path, non-ASCII), sizes {0, 1, 2^31-1, 2^63}, 3 URLs x 2 branches x 2 subpaths; Urgency accepts case variants (not probed); parse_origin/format_origin are crate-private and exercised through the DEP-3 accessors (C15)",
+        "level_note": "bounded scopes: 4 (8 thorough) tokens (ASCII, hex, path, non-ASCII, '0', '-', punctuation), sizes {0, 1, 2^31-1, 2^63}, 3 URLs x 2 branches x 2 subpaths; Urgency accepts case variants (not probed); parse_origin/format_origin are crate-private and exercised through the DEP-3 accessors (C15)",
         "stages": [{"kind": "tlc_replay", "name": "codec_values", "module": "MCCodecs.tla", "cfg": "MCCodecs.cfg", "stage": "codecs",
+                    "consts": {"quick": {"NTok": 4}, "thorough": {"NTok": 8}},
                     "workers": {"quick": 4, "thorough": 8}, "timeout": {"quick": 300, "thorough": 600}}],
         "rule": "every enumerated value / keyword / rejection probe; all distinct",
         "exhaustive": {"quick": True, "thorough": True},
@@ -265,9 +266,10 @@ PROPS = {
         "claimed": True,
         "technique": "TLA+ contract of the derive macro (To / Update / From on paragraphs as ordered lists, reusing the list semantics of Deb822EditP); TLC proves the round-trip laws on the contract and enumerates struct values x prior paragraphs; replayed on a struct with every field shape, on both paragraph back-ends",
         "level_text": "spec/MCDerive.tla states what the derived conversions must do for a struct covering every shape the macro distinguishes (mandatory/optional, default/renamed key, default/custom (de)serialiser, scalar/list/enum): TLC proves From(To(x)) = x, From(Update(x, p)) = x and that foreign fields keep their place for every value and prior paragraph, and emits the expected paragraphs and the expected error for each broken paragraph; the harness derives the macro on that struct and compares to_paragraph, update_paragraph, from_paragraph and the error texts on lossy::Paragraph and lossless::Paragraph (where comments and the raw lines of foreign fields must be untouched), and that both back-ends agree.",
-        "level_note": "bounded: 2-3 values per field, 6 prior paragraphs (foreign fields, duplicates, own fields in other order), 6 broken paragraphs; the deriving structs shipped in the workspace are exercised through their documents in C20",
+        "level_note": "bounded: 2-3 values per field, 6 prior paragraphs (foreign fields, duplicates, own fields in other order), 6 broken paragraphs; thorough: every prior paragraph of <= 3 fields over own and foreign keys, every struct's paragraph with <= 2 unparsable fields and/or removed mandatory fields in both orders; the deriving structs shipped in the workspace are exercised through their documents in C20",
         "stages": [{"kind": "tlc_replay", "name": "derive_contract", "module": "MCDerive.tla", "cfg": "MCDerive.cfg", "stage": "derive",
-                    "workers": {"quick": 4, "thorough": 8}, "timeout": {"quick": 300, "thorough": 600}}],
+                    "consts": {"quick": {"Deep": "FALSE"}, "thorough": {"Deep": "TRUE"}},
+                    "workers": {"quick": 4, "thorough": 12}, "timeout": {"quick": 300, "thorough": 3000}}],
         "rule": "every (struct value, prior paragraph) pair and every broken paragraph; all distinct",
         "exhaustive": {"quick": True, "thorough": True},
         "assumptions": [],
@@ -307,6 +309,7 @@ PROPS = {
                     "consts": {"quick": {"NSamples": 1, "Deep": "FALSE"}, "thorough": {"NSamples": 3, "Deep": "FALSE"}},
                     "workers": {"quick": 4, "thorough": 8}, "timeout": {"quick": 300, "thorough": 1200}},
                    {"kind": "tlc_replay", "name": "ep_codecs", "module": "MCCodecs.tla", "cfg": "MCCodecs.cfg", "stage": "ep_codecs",
+                    "consts": {"quick": {"NTok": 4}, "thorough": {"NTok": 8}},
                     "workers": {"quick": 4, "thorough": 8}, "timeout": {"quick": 300, "thorough": 600}},
                    {"kind": "tlc_replay", "name": "ep_pgp", "module": "MCPgp.tla", "cfg": "MCPgp.cfg", "stage": "ep_pgp",
                     "consts": {"quick": {"MaxPayload": 2, "SeqLen": 4}, "thorough": {"MaxPayload": 3, "SeqLen": 5}},
